@@ -7,19 +7,21 @@ import (
 
 	"golang.org/x/tools/go/ssa"
 
+	"verif/checker/flow"
 	"verif/checker/ir"
 )
 
 // C12 — registries stay consistent while entries change under load.
 //
 // Decided (structural necessary conditions):
-//   R-guarded-by      every post-construction access to a registry map / order slice holds the
-//                     owning struct's RWMutex; writes hold it exclusively
-//   R-snapshot        within one function all accesses to one owner's registry fields lie in one
-//                     critical section (same acquisition), so a list is a snapshot
-//   R-atomic-replace  registration stores one freshly allocated record (or a func value) with a
-//                     single map store; records already in a registry are never mutated in place
-//   R-order           resources/list is produced by walking the order slice, never by ranging the map
+//
+//	R-guarded-by      every post-construction access to a registry map / order slice holds the
+//	                  owning struct's RWMutex; writes hold it exclusively
+//	R-snapshot        within one function all accesses to one owner's registry fields lie in one
+//	                  critical section (same acquisition), so a list is a snapshot
+//	R-atomic-replace  registration stores one freshly allocated record (or a func value) with a
+//	                  single map store; records already in a registry are never mutated in place
+//	R-order           resources/list is produced by walking the order slice, never by ranging the map
 func init() { Registry["C12"] = checkC12 }
 
 type registryInfo struct {
@@ -86,6 +88,9 @@ func checkC12(c *Ctx) {
 	if len(names) < 10 {
 		c.R.Break("discovered %d registry fields (%v), expected at least 10", len(names), names)
 	}
+
+	c12OneRegistry(c, ri.owners)
+	c12NoLockAcrossHandler(c, ri)
 
 	guards := GuardTable(c, accs)
 	guardOf := map[string]string{}
@@ -321,4 +326,136 @@ func checkC12Order(c *Ctx, accs []Access, ri *registryInfo) {
 		}
 	}
 	c.R.Check(appended, "R-order", "registration appends to "+resOrder, "", "append(order, key)", "no registration function appends to the order slice")
+}
+
+// ---------------------------------------------------------------- R-one-registry
+// A constructor built with functional options that falls back to a fresh registry when none was supplied
+// (`if h.F == nil { h.F = newF() }`) silently gives the dispatcher a second, empty registry when a caller forgets the
+// option: registrations go to the server's registry, lookups to the dispatcher's. Every library call of such a
+// constructor must therefore pass, for each registry-typed member with a fallback, an option that sets that member.
+func c12OneRegistry(c *Ctx, registryTypes map[string]bool) {
+	n := 0
+	for _, H := range c.P.LibFns {
+		sig := H.Signature
+		if !sig.Variadic() || sig.Params().Len() == 0 || H.Signature.Recv() != nil {
+			continue
+		}
+		// fallback allocations: Store(FieldAddr(x, F), <call>) controlled by `x.F == nil`, F pointing to a registry struct
+		fallback := map[string]bool{}
+		ir.EachInstr(H, func(_ *ssa.BasicBlock, _ int, in ssa.Instruction) {
+			st, ok := in.(*ssa.Store)
+			if !ok {
+				return
+			}
+			f, base, ok := ir.FieldOf(st.Addr)
+			if !ok || !ir.BaseAlloc(base) {
+				return
+			}
+			pt, ok := f.Type.(*types.Pointer)
+			if !ok {
+				return
+			}
+			nt, ok := pt.Elem().(*types.Named)
+			if !ok || !registryTypes[ir.TypeKey(nt)] {
+				return
+			}
+			for _, g := range flow.Guards(H, st.Block()) {
+				if v, _, ok := nilCompare(g.If.Cond); ok {
+					if lf, _, ok := ir.LoadedField(v); ok && lf.Key() == f.Key() {
+						fallback[f.Key()] = true
+					}
+				}
+			}
+		})
+		if len(fallback) == 0 {
+			continue
+		}
+		// option constructors: library functions returning a closure that stores its captured parameter into member F
+		setter := map[*ssa.Function]string{}
+		for _, fn := range c.P.LibFns {
+			if fn.Parent() == nil {
+				continue
+			}
+			ir.EachInstr(fn, func(_ *ssa.BasicBlock, _ int, in ssa.Instruction) {
+				st, ok := in.(*ssa.Store)
+				if !ok {
+					return
+				}
+				f, base, ok := ir.FieldOf(st.Addr)
+				if !ok || !fallback[f.Key()] {
+					return
+				}
+				if _, isParam := base.(*ssa.Parameter); isParam {
+					setter[fn.Parent()] = f.Key()
+				}
+			})
+		}
+		for _, e := range ir.Callers(c.G, H) {
+			if e.Site == nil || !c.P.IsLib(e.Caller.Func) {
+				continue
+			}
+			args := e.Site.Common().Args
+			set := map[string]bool{}
+			for _, el := range variadicElems(args[len(args)-1]) {
+				if el == nil {
+					continue
+				}
+				if oc := originCall(el); oc != nil {
+					if sc := ir.StaticCallee(oc); sc != nil {
+						if f, ok := setter[sc]; ok {
+							set[f] = true
+						}
+					}
+				}
+			}
+			var fields []string
+			for f := range fallback {
+				fields = append(fields, f)
+			}
+			sort.Strings(fields)
+			for _, f := range fields {
+				n++
+				c.R.Check(set[f], "R-one-registry", f+" supplied by "+fname(e.Caller.Func), c.Pos(e.Site.Pos()), "the caller hands its own registry to the dispatcher",
+					sprintf("%s builds the dispatcher with %s but passes no option setting %s: %s falls back to a fresh, empty registry, so what is registered through the server's API is invisible to requests", fname(e.Caller.Func), fname(H), f, fname(H)))
+			}
+		}
+	}
+	c.R.Min("R-one-registry", 4)
+	_ = n
+}
+
+// ---------------------------------------------------------------- R-handler-unlocked
+// No registry lock is held while user code (a tool / prompt / resource handler, a filter) runs: a handler that
+// registers something itself would deadlock on the registry's RWMutex, and a slow handler would stall every
+// registration (and, once a writer waits, every other reader).
+func c12NoLockAcrossHandler(c *Ctx, ri *registryInfo) {
+	n := 0
+	for _, fn := range c.P.LibFns {
+		ir.EachInstr(fn, func(_ *ssa.BasicBlock, _ int, in ssa.Instruction) {
+			call, ok := in.(*ssa.Call)
+			if !ok {
+				return
+			}
+			cb := userCallbackCall(c, call)
+			if cb == "" {
+				return
+			}
+			var held []string
+			for k := range c.Locks().At(call) {
+				owner := k
+				if i := strings.LastIndex(k, "."); i > 0 {
+					owner = k[:i]
+				}
+				if ri.owners[owner] {
+					held = append(held, k)
+				}
+			}
+			sort.Strings(held)
+			n++
+			c.R.Check(len(held) == 0, "R-handler-unlocked", cb+" called by "+fname(fn), c.Pos(call.Pos()), "no registry lock held while user code runs",
+				sprintf("%s runs user code (%s) while holding %v: a handler that registers or unregisters anything deadlocks on that lock, and a slow handler blocks every registration and, behind a waiting writer, every list and call", fname(fn), cb, held))
+		})
+	}
+	c.R.Min("R-handler-unlocked", 4)
+	_ = n
 }
